@@ -157,6 +157,55 @@ pub fn check(case: &Case, prepared: &mut Prepared) -> Result<bool, String> {
     Ok(expected != case.headers)
 }
 
+
+// ---------------------------------------------------------------------------------------------
+// several rules: "applying, in rule order, the five operations" — the action of k matched rules (distinct ranks,
+// unconditional filters, no redirect) must filter like the concatenation of the rules' filter lists in
+// application order (lowest priority first)
+
+#[derive(Clone, Debug, Serialize, Deserialize)]
+pub struct MultiCase {
+    pub headers: Vec<(String, String)>,
+    /// per rule (rank = position, i.e. already in application order reversed: see `check_multi`): its filters
+    pub rules: Vec<Vec<(String, String, String)>>,
+}
+
+pub fn check_multi(case: &MultiCase) -> Result<bool, String> {
+    use crate::world::RuleSpec;
+    let mut specs: Vec<RuleSpec> = Vec::new();
+    for (i, filters) in case.rules.iter().enumerate() {
+        let mut r = RuleSpec::simple(&format!("m{i}"), "/a");
+        r.rank = (i as u16) * 3 + 1;
+        r.effects.status_code = None;
+        r.effects.target = None;
+        r.effects.header_filters = filters.clone();
+        specs.push(r);
+    }
+    let order: Vec<String> = super::c05::contributing(&specs, None, &mut super::c05::FoldTrace::default()).iter().map(|r| r.id.clone()).collect();
+    let mut concatenated: Vec<(String, String, String)> = Vec::new();
+    for id in &order {
+        let idx: usize = id[1..].parse().unwrap_or(0);
+        concatenated.extend(case.rules[idx].iter().cloned());
+    }
+    let expected = reference(&case.headers, &concatenated);
+    // the matched list is handed over in a scrambled order: the action sorts it
+    let scrambled: Vec<usize> = (0..specs.len()).rev().collect();
+    let mut action = super::c05::build_action(&specs, None, Some(&scrambled));
+    for code in [0u16, 200, 404] {
+        let got = from_headers(action.filter_headers(to_headers(&case.headers), code, false, None));
+        if got != expected {
+            return Err(format!(
+                "action of {} rules (filters in application order {:?}), Action::filter_headers(code={code}): got {:?}, reference {:?}",
+                case.rules.len(),
+                concatenated,
+                got,
+                expected
+            ));
+        }
+    }
+    Ok(expected != case.headers)
+}
+
 fn record(case: &Case, prepared: &mut Prepared, enumerated: bool, report: &mut Report) {
     report.eval();
     match guarded(|| check(case, prepared)) {
@@ -298,6 +347,34 @@ pub fn run(ctx: &Ctx, _args: &Args) -> i32 {
         }
     });
 
+    // several rules merged into one action
+    let multi = run_sharded(jobs, |shard, report| {
+        let mut rng = Rng::stream(ctx.seed, 900 + shard as u64);
+        let names = ["A", "a", "B", "Cache-Control", "cache-control", "X-Foo"];
+        let values = ["", "1", "2", "public, max-age=3600"];
+        for _ in 0..(ctx.tier.pick(40_000u64, 600_000u64) / jobs as u64) {
+            let hn = rng.range(0, 4);
+            let headers: Vec<(String, String)> = (0..hn).map(|_| (rng.pick(&names).to_string(), rng.pick(&values).to_string())).collect();
+            let k = rng.range(2, 4);
+            let rules: Vec<Vec<(String, String, String)>> = (0..k)
+                .map(|_| (0..rng.range(1, 2)).map(|_| (rng.pick(&ACTIONS[..5]).to_string(), rng.pick(&names).to_string(), rng.pick(&values).to_string())).collect())
+                .collect();
+            let case = MultiCase { headers, rules };
+            report.eval();
+            match guarded(|| check_multi(&case)) {
+                Err(panic) => report.library_panic(&panic),
+                Ok(Err(m)) => report.violation("mismatch", m, json!({"multi": case})),
+                Ok(Ok(changed)) => {
+                    report.count("actions_merged_from_several_rules");
+                    if changed {
+                        report.nontrivial(fnv_str(&serde_json::to_string(&case).unwrap()));
+                    }
+                }
+            }
+        }
+    });
+    report.merge(multi);
+
     for (name, seqs, lists) in &spaces {
         report
             .exhaustive
@@ -321,6 +398,20 @@ pub fn run(ctx: &Ctx, _args: &Args) -> i32 {
 }
 
 pub fn replay(_ctx: &Ctx, case: &Value) -> i32 {
+    if let Some(m) = case.get("multi") {
+        let failures = match serde_json::from_value::<MultiCase>(m.clone()) {
+            Err(e) => {
+                eprintln!("bad case: {e}");
+                return 2;
+            }
+            Ok(mc) => match guarded(|| check_multi(&mc)) {
+                Err(p) => vec![format!("panic: {p}")],
+                Ok(Err(m)) => vec![m],
+                Ok(Ok(_)) => vec![],
+            },
+        };
+        return super::replay_verdict("C13", failures);
+    }
     let case: Case = match serde_json::from_value(case.clone()) {
         Ok(c) => c,
         Err(e) => {
